@@ -267,7 +267,11 @@ class ConfigParser(object):
       self._raise_syntax_error('Expected newline.')
 
     if self._current_token.type != tokenize.ENDMARKER:
-      self._advance_one_token()
+      try:
+        self._advance_one_token()
+      except Exception as e:  # pylint: disable=broad-except
+        # The next line doesn't tokenize; this statement is complete, though.
+        self._deferred_error = e
 
     return statement
 
@@ -475,8 +479,11 @@ class ConfigParser(object):
               arg_name=arg_name,
               value=value,
               location=binding_location)
-          self._expect(tokenize.NEWLINE, 'Expected newline.')
+          if self._current_token.type != tokenize.NEWLINE:
+            self._expect(tokenize.NEWLINE, 'Expected newline.')
+          # Complete, even if the next line turns out not to tokenize.
           bindings.append(binding)
+          self._advance_one_token()
           self._skip_whitespace_and_comments()
       except Exception as e:  # pylint: disable=broad-except
         # The block's declaration and the members preceding the faulty one are
